@@ -68,6 +68,11 @@ def cases(draw, tier):
             'ignore': draw(st.sampled_from([[''], ['gtsam::A'], ['A', 'ns1::B']])),
             'history': [R.text(draw(G.modules(profile())))
                         for _ in range(draw(st.integers(0, 3)))],
+            # which earlier wrap calls of the process used an object of their own
+            'fresh': draw(st.lists(st.booleans(), min_size=3, max_size=3)),
+            'final_fresh': draw(st.booleans()),
+            # further interface files of the module (only their names matter to the main file)
+            'subs': draw(st.lists(st.sampled_from(SUB_STEMS), max_size=5, unique=True)),
             'stale': draw(st.booleans()),
             'delay': draw(st.integers(0, 20)),
         })
@@ -79,12 +84,16 @@ def cases(draw, tier):
     return {'jobs': jobs, 'cfg': cfg}
 
 
+SUB_STEMS = ['geometry', 'nav', 'slam', 'base', 'linear', 'nonlinear', 'sfm', 'basis', 'a', 'b2']
+
+
 def _reference(job, tpl):
     """Expected outputs {relative name: bytes-as-str} from an in-process library call."""
     top = [''] + job['top']
     if job['mode'] in ('script-pybind', 'api-pybind-history'):
         return {'OUT': wraps.pybind_text(job['text'], top=top, ignore=job['ignore'],
-                                         boost=job['boost'], module_name='mymod', tpl=tpl)}
+                                         boost=job['boost'], module_name='mymod', tpl=tpl,
+                                         submodules=job.get('subs', []))}
     if job['mode'] == 'script-pybind-sub':
         w = wraps.pybind_wrapper(top=top, ignore=job['ignore'], boost=job['boost'],
                                  module_name='mymod', tpl=tpl)
@@ -166,8 +175,9 @@ def check(case):
             common = ['--module_name', 'mymod', '--top_module_namespaces',
                       '::'.join(job['top']), '--ignore'] + job['ignore']
             boost = ['--use-boost-serialization'] if job['boost'] else []
+            subs = [os.path.join(srcd, x + '.i') for x in job.get('subs', [])]
             if mode == 'script-pybind':
-                jb.update(mode='script-pybind', argv=['--src', src, '--out', outp,
+                jb.update(mode='script-pybind', argv=['--src', ';'.join([src] + subs), '--out', outp,
                                                       '--template', tplfile] + common + boost)
             elif mode == 'script-pybind-sub':
                 jb.update(mode='script-pybind', argv=['--src', src, '--out', 'unused.cpp',
@@ -177,7 +187,9 @@ def check(case):
                 jb.update(mode='script-matlab', argv=['--src', src, '--out', outp] + common +
                           boost)
             elif mode == 'api-pybind-history':
-                jb.update(mode=mode, options=o, history=job['history'], sources=[src], out=outp)
+                jb.update(mode=mode, options=o, history=job['history'], sources=[src] + subs,
+                          out=outp, fresh=job.get('fresh', []),
+                          final_fresh=job.get('final_fresh', False))
             else:
                 jb.update(mode=mode, options=o, sources=[src], out=outp)
             jobfile = os.path.join(d, 'job%d.json' % j)
@@ -291,6 +303,11 @@ def features(case):
         f.add('mode-' + j['mode'])
         if j['history']:
             f.add('history')
+            if j['mode'] == 'api-pybind-history' and (any(j.get('fresh', [])[:len(j['history'])])
+                                                      or j.get('final_fresh')):
+                f.add('history-other-wrapper-objects')
+        if len(j.get('subs', [])) >= 2 and j['mode'] in ('script-pybind', 'api-pybind-history'):
+            f.add('several-submodules')
         if j['stale']:
             f.add('stale-previous-output')
     return f
@@ -309,7 +326,9 @@ SPEC = Spec(
     len(c['jobs']) > 1,
     rule="Hypothesis draws 1, 3 or 5 generation jobs (semantic-profile input, options, one of: "
          "pybind script, pybind script --is_submodule, MATLAB script, PybindWrapper API after "
-         "0..3 earlier wrap_file calls on the same object, MatlabWrapper API) and one "
+         "0..3 earlier wrap_file calls on the same or on other PybindWrapper objects of the "
+         "process, MatlabWrapper API; the pybind main-module jobs name 0..5 further interface "
+         "files) and one "
          "configuration: PYTHONHASHSEED (0, 1, 'random', a drawn 32-bit value), working directory "
          "(build dir, source dir, '/', a directory with a space and a non-ASCII letter), locale "
          "(C, C.UTF-8, POSIX) x PYTHONUTF8, repetition, output location optionally pre-filled "
